@@ -440,6 +440,7 @@ PROPS['C12']['required_theorems'] += ['gen_dec', 'gen_add', 'gen_radd', 'gen_sub
                                       'gen_mod_dms', 'gen_mod_ddm', 'gen_add_sub_dec', 'gen_cmp_dec']
 PROPS['C01']['more_proof_modules'] = list(PROPS['C01'].get('more_proof_modules', [])) + ['GeodeVerif.Proofs.C01c']
 PROPS['C01']['required_theorems'] += ['confLat_sphere', 'alpha_sphere', 'rect_radius_sphere', 'tm_sphere', 'geo2grid_sphere', 'sphere_tm_is_exact']
+PROPS['C01']['required_theorems'] += ['tm_scales_with_semimaj']
 PROPS['C13']['more_proof_modules'] = list(PROPS['C13'].get('more_proof_modules', [])) + ['GeodeVerif.Proofs.C13b']
 PROPS['C13']['required_theorems'] += ['conform7_31_is_diag', 'conform7_31_none', 'pipeline_94_to_2020_31', 'pipeline_2020_to_94_31']
 PROPS['C13']['tie_functions'] = list(PROPS['C13']['tie_functions']) + ['Transform.transform_mga94_to_mga2020_31', 'Transform.transform_mga2020_to_mga94_31', 'Transform.conform7_31']
